@@ -50,6 +50,14 @@ CHECKS = {
     "C14": ("Hypothesis-generated datasets with a climatology input; differential against the dictionary model (anomalies at the same coordinates) + metamorphic relation '-c X' vs 'X as extra input' through files",
             "Anomaly values, dropped cases (missing climatology, non-finite quotient), untouched non-obs/fcst fields, and the absence of the climatology from inputs/legend/header are checked for -c and -C.",
             DS_NOTE, "DESIGN.md section 5, C14"),
+    "C16": ("Hypothesis-generated datasets x 33 kinds of figure; the rendered matplotlib figure is dumped to plain data and compared, series by series, with the diagram's defining statistics computed by the independent model; partition oracles for binned diagrams",
+            "Line/bar/scatter/rectangle coordinates of standard plots, maps, rank/impact views and 28 special diagrams equal the statistics of the common valid cases (exact where the definition is unambiguous, validity predicates where the code chooses thresholds/neighbourhoods/tie rules); "
+            "one series per input in command-line order; per-bin counts/percentages account for every valid case, with probabilities exactly 0 and 1.",
+            "Explicit -r/-q edges wherever accepted; matplotlib date numbers with the 1970 epoch; decorations (bands, rings, iso-lines, ideal lines) not judged; Agg backend.", "DESIGN.md section 5, C16"),
+    "C17": ("Hypothesis-generated subsets/values of 42 appearance options on five kinds of figure and five file formats; read-back of the figure's properties against the documented effect + metamorphic removal of one cosmetic option",
+            "Every option present must show its documented effect in the figure left by verif.driver.run (titles, labels, limits, ticks, rotations, scales, legend, line styles with cycling, font sizes, grid, perfect-score line, aspect, size, margins, annotations) whatever accompanies it; "
+            "dropping a purely cosmetic option must not change any other observable; the file has the right format, dpi and pixel size.",
+            "Contradictory option pairs are not combined (listed in the evidence assumptions); each command runs with no pre-existing figure, as in a fresh process.", "DESIGN.md section 5, C17"),
     "C18": ("model-based request histories (Hypothesis operation sequences + exhaustive sequences up to length 3) with invariants after every step: fresh-object differential, snapshots of returned arrays and of input data; repeated commands",
             "After every request of a generated history the result equals that of a freshly built dataset, earlier results and the inputs' arrays are unchanged; all 5655 sequences of length <=3 over a 12-request menu on 3 datasets are enumerated; commands repeated twice print the same output.",
             "In-memory inputs keep arrays as attributes (like verif.input.Text). PIT randomisation with x0/x1 is a listed finding and is generated in its own campaign.", "DESIGN.md section 5, C18"),
